@@ -35,7 +35,7 @@ pub fn core_entry_chains() -> Vec<Vec<u8>> {
 }
 pub fn core_raw_chains() -> Vec<(u64, Vec<u8>)> {
     let mut v: Vec<(u64, Vec<u8>)> = methods(Ty::RE).into_iter().map(|(m, _)| (0, vec![m])).collect();
-    for b in 1..3u64 {
+    for b in 1..4u64 {
         v.push((b, vec![RE_OR_INSERT]));
         v.push((b, vec![RO_REMOVE]));
         v.push((b, vec![RV_INSERT_HASHED]));
@@ -64,7 +64,7 @@ pub fn block(name: &str, c: &AlphaCtx, out: &mut Vec<Op>) {
                 for op in [OpK::Get, OpK::GetMut, OpK::GetKeyValue, OpK::GetKeyValueMut, OpK::ContainsKey, OpK::Index] {
                     out.push(Op::key(op, k));
                 }
-                for b in 0..3 {
+                for b in 0..4 {
                     out.push(Op::new(OpK::RawGet, k, b));
                 }
             }
@@ -118,7 +118,7 @@ pub fn block(name: &str, c: &AlphaCtx, out: &mut Vec<Op>) {
                 for ch in all_chains(Ty::RE, depth) {
                     out.push(Op::new(OpK::RawChain, k, raw_arg(0, &ch)));
                 }
-                for b in 1..3 {
+                for b in 1..4 {
                     for ch in all_chains(Ty::RE, depth.min(2)) {
                         out.push(Op::new(OpK::RawChain, k, raw_arg(b, &ch)));
                     }
